@@ -7,6 +7,8 @@ CONSTANTS
     PerNameOnSuccess = TRUE
     ListNamesCanonical = FALSE
     FindPrefersDirectChild = TRUE
+    NonRegularRefused = FALSE
+    ExcuseNonRegular = TRUE
     ExcuseMisplaced = FALSE
     ExcuseDecoy = FALSE
 SPECIFICATION Spec
